@@ -316,6 +316,8 @@ func (fm *FieldMask) PathInMask(desc *thrift_reflection.TypeDescriptor, path str
 func (cur *FieldMask) GetPath(desc *thrift_reflection.TypeDescriptor, path string) (*FieldMask, bool) {
 	it := newPathIter(path)
 	// println("[PathInMask]")
+	// look through typedefs, as addPath does
+	desc = unwrapDesc(desc)
 	last := cur
 	for it.HasNext() {
 		// NOTICE: desc shoudn't empty here
@@ -393,7 +395,7 @@ func (cur *FieldMask) GetPath(desc *thrift_reflection.TypeDescriptor, path strin
 			}
 
 			// deep to next desc
-			desc = f.GetType()
+			desc = unwrapDesc(f.GetType())
 			if desc == nil {
 				return nil, false
 			}
@@ -406,7 +408,7 @@ func (cur *FieldMask) GetPath(desc *thrift_reflection.TypeDescriptor, path strin
 			if !desc.IsList() {
 				return nil, false
 			}
-			et := desc.GetValueType()
+			et := unwrapDesc(desc.GetValueType())
 			if et == nil {
 				return nil, false
 			}
@@ -457,7 +459,7 @@ func (cur *FieldMask) GetPath(desc *thrift_reflection.TypeDescriptor, path strin
 			if !desc.IsMap() {
 				return nil, false
 			}
-			et := desc.GetValueType()
+			et := unwrapDesc(desc.GetValueType())
 			if et == nil {
 				return nil, false
 			}
